@@ -622,6 +622,8 @@ def run(chk):
     # size-based rolling relies on the batch's byte accounting: clear() really empties it (shared with C09)
     from . import batcher
     batcher.channel_impls(chk, P, "C11.channel")
+    # the size-limit decision reads the batch's byte count: after a failed write the retried batch must report its full size again
+    c10.rewind_rule(chk, P, "C11.R1b")
     common.builder_rules(chk, P, "C11", lambda b: b.key.startswith("emit_file::FileSetBuilder::"), 7)
     common.arg_agreement_rule(chk, P, "C11", [("emit_file", None)], 5)
     return chk
